@@ -40,7 +40,7 @@ def check_C14(tier):
     results = run_jobs(jobs)
     pfx = F.build_many([(c, "rel") for c in pcl])
     _e4_report(rep, "C14", results, lambda j: "%s/%s on-demand powers" % (j["config"], j["mode"]),
-               {"%s/%s on-demand powers" % (c, m): pfx[(c, "rel")] for c in pcl for m in ("dbg", "rel")}, floor_per_group=2)
+               {"%s/%s on-demand powers" % (c, m): pfx[(c, "rel")] for c in pcl for m in ("dbg", "rel")}, floor_per_group=1)
     rep.note("not decided: exactness of powf/powd (std or bundled libm) used for float powers in compact builds. On-demand integer powers: every "
              "u64::pow call site reachable from try_fast_path / bigint::pow (thorough: parse_mantissa) in the compact configurations is proven overflow-free (E4)")
     return rep.finish(
@@ -369,7 +369,7 @@ def check_C11(tier):
     n_carry = sum(1 for r in results for res in r.get("results", []) for o in res["obs"] if o["kind"].startswith("carry-test"))
     rep.floor("carry tests on wrapping sums in the Eisel-Lemire product", n_carry, 1)
     n_scale = sum(1 for r in results for res in r.get("results", []) for o in res["obs"] if o["kind"].startswith("scale-consumed"))
-    rep.floor("call sites of normalize in the Bellerophon stage (scale-consumed rule)", n_scale, 2 * len([c for c in ccl if "compact" in c]))
+    rep.floor("call sites of normalize in the Bellerophon stage (scale-consumed rule)", n_scale, 1 * len([c for c in ccl if "compact" in c]))
     return rep.finish(
         "other",
         "Constant part of the middle stage: tie-window bounds (one-sided), table coverage of [SMALLEST,LARGEST]_POWER_OF_TEN, every table significand "
